@@ -240,6 +240,8 @@ func runC09(c *Ctx) {
 	// Restart must not be undone by the previous run's context listener (the worker would end up Stopped, its pending jobs never run)
 	c.ruleContextRetiredAtomically("R09.7")
 	c.ruleOnlyResumeRestartLeave("R09.8")
+	// PauseAndWait/Stop return only when nothing is in flight: the wait re-evaluates its predicate in a loop
+	c.rulePredicates("R09.9", "R09.10")
 }
 
 func (c *Ctx) ruleReserveThenCheck(rule string) {
